@@ -71,7 +71,7 @@ typedef enum {
 	FLD_SGID,
 } ical_fld_t;
 
-#line 54 "evical-gp.erf"
+#line 53 "evical-gp.erf"
 struct ical_fld_cell_s {
 	const char *fldstr;
 	ical_fld_t fld;
@@ -102,7 +102,20 @@ __evical_fld_hash (register const char *str, register size_t len)
       77, 77, 77, 77, 77, 77, 77, 77, 77, 77,
       77, 77, 77, 77, 77, 77, 77, 77, 77, 77,
       77, 77, 77, 77, 77, 77, 77, 77, 77, 77,
-      77, 77, 77, 77, 77, 77, 77, 77
+      77, 77, 77, 77, 77, 77, 77, 77, 77, 77,
+      77, 77, 77, 77, 77, 77, 77, 77, 77, 77,
+      77, 77, 77, 77, 77, 77, 77, 77, 77, 77,
+      77, 77, 77, 77, 77, 77, 77, 77, 77, 77,
+      77, 77, 77, 77, 77, 77, 77, 77, 77, 77,
+      77, 77, 77, 77, 77, 77, 77, 77, 77, 77,
+      77, 77, 77, 77, 77, 77, 77, 77, 77, 77,
+      77, 77, 77, 77, 77, 77, 77, 77, 77, 77,
+      77, 77, 77, 77, 77, 77, 77, 77, 77, 77,
+      77, 77, 77, 77, 77, 77, 77, 77, 77, 77,
+      77, 77, 77, 77, 77, 77, 77, 77, 77, 77,
+      77, 77, 77, 77, 77, 77, 77, 77, 77, 77,
+      77, 77, 77, 77, 77, 77, 77, 77, 77, 77,
+      77, 77, 77, 77, 77, 77
     };
   register unsigned int hval = len;
 
@@ -148,77 +161,77 @@ __evical_fld (register const char *str, register size_t len)
 
   static const struct ical_fld_cell_s wordlist[] =
     {
-#line 72 "evical-gp.erf"
-      {"EXDATE", FLD_XDATE},
-#line 74 "evical-gp.erf"
-      {"SUMMARY", FLD_SUMM},
-#line 69 "evical-gp.erf"
-      {"RRULE", FLD_RRULE},
 #line 71 "evical-gp.erf"
-      {"EXRULE", FLD_XRULE},
-#line 66 "evical-gp.erf"
-      {"DUE", FLD_DUE},
-#line 65 "evical-gp.erf"
-      {"DTEND", FLD_DTEND},
-#line 62 "evical-gp.erf"
-      {"METHOD", FLD_METH},
-#line 92 "evical-gp.erf"
-      {"ATTENDEE", FLD_ATT},
-#line 67 "evical-gp.erf"
-      {"COMPLETED", FLD_COMPL},
-#line 77 "evical-gp.erf"
-      {"X-GA-MRULE", FLD_MRULE},
-#line 61 "evical-gp.erf"
-      {"END", FLD_END},
-#line 60 "evical-gp.erf"
-      {"BEGIN", FLD_BEGIN},
-#line 82 "evical-gp.erf"
-      {"X-ECHS-OFILE", FLD_OFILE},
+      {"EXDATE", FLD_XDATE},
 #line 73 "evical-gp.erf"
-      {"UID", FLD_UID},
-#line 85 "evical-gp.erf"
-      {"X-ECHS-MAIL-OUT", FLD_MOUT},
-#line 79 "evical-gp.erf"
-      {"X-ECHS-OWNER", FLD_OWNER},
+      {"SUMMARY", FLD_SUMM},
 #line 68 "evical-gp.erf"
-      {"DURATION", FLD_DURA},
-#line 93 "evical-gp.erf"
-      {"ORGANIZER", FLD_ORG},
-#line 84 "evical-gp.erf"
-      {"X-ECHS-MAIL-RUN", FLD_MRUN},
-#line 83 "evical-gp.erf"
-      {"X-ECHS-EFILE", FLD_EFILE},
-#line 91 "evical-gp.erf"
-      {"LOCATION", FLD_LOC},
-#line 86 "evical-gp.erf"
-      {"X-ECHS-MAIL-ERR", FLD_MERR},
-#line 64 "evical-gp.erf"
-      {"DTSTART", FLD_DTSTART},
-#line 78 "evical-gp.erf"
-      {"X-GA-MFILE", FLD_MFILE},
-#line 87 "evical-gp.erf"
-      {"X-ECHS-MAX-SIMUL", FLD_MAX_SIMUL},
-#line 81 "evical-gp.erf"
-      {"X-ECHS-IFILE", FLD_IFILE},
-#line 95 "evical-gp.erf"
-      {"RECURRENCE-ID", FLD_RECURID},
+      {"RRULE", FLD_RRULE},
 #line 70 "evical-gp.erf"
-      {"RDATE", FLD_RDATE},
-#line 88 "evical-gp.erf"
-      {"X-ECHS-UMASK", FLD_UMASK},
-#line 89 "evical-gp.erf"
-      {"X-ECHS-SETUID", FLD_SUID},
-#line 80 "evical-gp.erf"
-      {"X-ECHS-SHELL", FLD_SHELL},
-#line 90 "evical-gp.erf"
-      {"X-ECHS-SETGID", FLD_SGID},
+      {"EXRULE", FLD_XRULE},
+#line 65 "evical-gp.erf"
+      {"DUE", FLD_DUE},
+#line 64 "evical-gp.erf"
+      {"DTEND", FLD_DTEND},
+#line 61 "evical-gp.erf"
+      {"METHOD", FLD_METH},
+#line 91 "evical-gp.erf"
+      {"ATTENDEE", FLD_ATT},
+#line 66 "evical-gp.erf"
+      {"COMPLETED", FLD_COMPL},
 #line 76 "evical-gp.erf"
-      {"X-GA-STATE", FLD_STATE},
+      {"X-GA-MRULE", FLD_MRULE},
+#line 60 "evical-gp.erf"
+      {"END", FLD_END},
+#line 59 "evical-gp.erf"
+      {"BEGIN", FLD_BEGIN},
+#line 81 "evical-gp.erf"
+      {"X-ECHS-OFILE", FLD_OFILE},
+#line 72 "evical-gp.erf"
+      {"UID", FLD_UID},
+#line 84 "evical-gp.erf"
+      {"X-ECHS-MAIL-OUT", FLD_MOUT},
+#line 78 "evical-gp.erf"
+      {"X-ECHS-OWNER", FLD_OWNER},
+#line 67 "evical-gp.erf"
+      {"DURATION", FLD_DURA},
+#line 92 "evical-gp.erf"
+      {"ORGANIZER", FLD_ORG},
+#line 83 "evical-gp.erf"
+      {"X-ECHS-MAIL-RUN", FLD_MRUN},
+#line 82 "evical-gp.erf"
+      {"X-ECHS-EFILE", FLD_EFILE},
+#line 90 "evical-gp.erf"
+      {"LOCATION", FLD_LOC},
+#line 85 "evical-gp.erf"
+      {"X-ECHS-MAIL-ERR", FLD_MERR},
 #line 63 "evical-gp.erf"
-      {"CALSCALE", FLD_SCALE},
+      {"DTSTART", FLD_DTSTART},
+#line 77 "evical-gp.erf"
+      {"X-GA-MFILE", FLD_MFILE},
+#line 86 "evical-gp.erf"
+      {"X-ECHS-MAX-SIMUL", FLD_MAX_SIMUL},
+#line 80 "evical-gp.erf"
+      {"X-ECHS-IFILE", FLD_IFILE},
 #line 94 "evical-gp.erf"
-      {"REQUEST-STATUS", FLD_RSTAT},
+      {"RECURRENCE-ID", FLD_RECURID},
+#line 69 "evical-gp.erf"
+      {"RDATE", FLD_RDATE},
+#line 87 "evical-gp.erf"
+      {"X-ECHS-UMASK", FLD_UMASK},
+#line 88 "evical-gp.erf"
+      {"X-ECHS-SETUID", FLD_SUID},
+#line 79 "evical-gp.erf"
+      {"X-ECHS-SHELL", FLD_SHELL},
+#line 89 "evical-gp.erf"
+      {"X-ECHS-SETGID", FLD_SGID},
 #line 75 "evical-gp.erf"
+      {"X-GA-STATE", FLD_STATE},
+#line 62 "evical-gp.erf"
+      {"CALSCALE", FLD_SCALE},
+#line 93 "evical-gp.erf"
+      {"REQUEST-STATUS", FLD_RSTAT},
+#line 74 "evical-gp.erf"
       {"DESCRIPTION", FLD_DESC}
     };
 
